@@ -1,4 +1,4 @@
-import RbV.Model.SampledSA
+import RbV.Model.SampledGet
 import RbV.Ref.SAComplete
 /-
 LF mapping and sampled suffix array for texts with SEVERAL sentinel occurrences (C03 [C], full quantifier).
@@ -10,7 +10,7 @@ sentinel are answered from `extra_rows`.  `sampled_get_correct_multi`: `get(i) =
 array of every text whose sentinel is its smallest symbol, every sampling rate and every Occ rate.
 -/
 namespace RbV.LFMulti
-open RbV RbV.Kasai RbV.LF RbV.OccM RbV.Sampled
+open RbV RbV.Kasai RbV.LFMap RbV.OccM RbV.Sampled
 
 /-- `ks` orders the positions like the text does, as far as non-sentinel symbols are concerned -/
 structure KeyOf (t ks : List Nat) : Prop where
